@@ -78,7 +78,7 @@ def theorem_names(prop: str) -> list[str]:
     if not f.exists():
         return []
     src = strip_comments(f.read_text())
-    return [f"ThaiLintModel.{prop}.{m}" for m in re.findall(r"^\s*theorem\s+([A-Za-z0-9_'.]+)", src, re.M)]
+    return [f"ThaiLintModel.{prop}.{m}" for m in re.findall(r"^\s*theorem\s+([^\s:(\[{]+)", src, re.M)]
 
 
 def build_and_audit(prop: str, tier: str) -> ProofStatus:
